@@ -178,6 +178,19 @@ func abstractOf(c schema.Change) (sortCh, bool) {
 	return sortCh{}, false
 }
 
+// c04Planner: the MySQL and PostgreSQL planners, and the planner the MySQL driver hands out for a TiDB
+// server ("tidb": no SortChanges there - DetachCycles, one change per statement, a stable sort by priority).
+func c04Planner(dialect string) migrate.PlanApplier {
+	switch dialect {
+	case "postgres":
+		return postgres.DefaultPlan
+	case "tidb":
+		pl, _ := c17Planner("tidb")
+		return pl
+	}
+	return mysql.DefaultPlan
+}
+
 // planOrderImpl runs the real planner and returns the ordered, de-duplicated sources of the plan.
 func planOrderImpl(dialect string, changes []schema.Change) (out []sortCh, res string) {
 	defer func() {
@@ -185,9 +198,9 @@ func planOrderImpl(dialect string, changes []schema.Change) (out []sortCh, res s
 			out, res = nil, fmt.Sprintf("panic: %v", p)
 		}
 	}()
-	var pl migrate.PlanApplier = mysql.DefaultPlan
-	if dialect == "postgres" {
-		pl = postgres.DefaultPlan
+	pl := c04Planner(dialect)
+	if pl == nil {
+		return nil, "error: no planner for " + dialect
 	}
 	plan, err := pl.PlanChanges(context.Background(), "p", changes)
 	if err != nil {
@@ -423,6 +436,10 @@ func runC04(e *Env) error {
 									cases = append(cases, c04Case{N: n, Edges: edges, Role: role, KeptAdd: ka, Perm: p, Dialect: d, Extra: true})
 								}
 							}
+							if pi == 0 || pi == len(perms)-1 {
+								// the TiDB variant of the MySQL planner (judged by the replay monitors only)
+								cases = append(cases, c04Case{N: n, Edges: edges, Role: role, KeptAdd: ka, Perm: p, Dialect: "tidb", Extra: pi != 0})
+							}
 						}
 					}
 				}
@@ -459,7 +476,7 @@ func runC04(e *Env) error {
 				perm[i] = i
 			}
 			hx.Shuffle(r, perm)
-			cases = append(cases, c04Case{N: n, Edges: edges, Role: role, KeptAdd: r.Chance(1, 2), Perm: perm, Dialect: hx.Pick(r, []string{"mysql", "postgres"}), Extra: r.Chance(1, 3)})
+			cases = append(cases, c04Case{N: n, Edges: edges, Role: role, KeptAdd: r.Chance(1, 2), Perm: perm, Dialect: hx.Pick(r, []string{"mysql", "postgres", "mysql", "postgres", "tidb"}), Extra: r.Chance(1, 3)})
 		}
 		e.Res.Exhaustive = !e.Thorough()
 		e.Res.Rule = fmt.Sprintf("all directed graphs with self loops on 1..%d tables x all 3^n splits created/dropped/kept x kept->kept edges added or dropped x input orders (all permutations for n<=3) x {mysql, postgres} (the 4-table space is sampled 1/8 per seed) + %d random graphs of 5..12 tables; for the first and last input order also with an unrelated column dropped in every ModifyTable; the planned order is replayed on a reference catalogue twice: as Source changes and as the planned statements (parsed CREATE/DROP/ALTER TABLE commands); scenarios with an edge between a created and a dropped table are skipped as inconsistent; non-trivial = change set with >= 2 changes and >= 1 foreign key; distinct by the whole case", maxN, nr)
@@ -515,8 +532,8 @@ func runC04(e *Env) error {
 			return hxJSON(ys)
 		}
 		same := res == "ok" && norm(order) == norm(raw.Order)
-		if len(abs) > 12 {
-			same = true // sort.Slice is not stable beyond 12 elements: the monitor alone judges
+		if len(abs) > 12 || c.Dialect == "tidb" {
+			same = true // sort.Slice is not stable beyond 12 elements / TiDB orders by priority: the monitor alone judges
 		}
 		if !same {
 			e.Res.Disagree()
